@@ -4,12 +4,16 @@ From UEC Require Import Base.Wire Ec.Compose Ec.Generation.
 Import ListNotations.
 Local Open Scope Z_scope.
 
-Record entry := { saw_addr : bool; saw_contents : bool; w1 : Z; w2 : Z; outcome : Z + Z (* child | error *) }.
+(* w3: the tail of a bulk draw whose length is not a multiple of the word size (reported for small populations only) *)
+Record entry := { saw_addr : bool; saw_contents : bool; w1 : Z; w2 : Z; w3 : option Z; outcome : Z + Z (* child | error *) }.
 Definition dec_entry (t : tree) : option entry :=
   match t with
   | L [a; c; A x; A y; A k; A v] =>
     olet a := tbool a in olet c := tbool c in
-    Some {| saw_addr := a; saw_contents := c; w1 := x; w2 := y; outcome := if k =? 0 then inl v else inr v |}
+    Some {| saw_addr := a; saw_contents := c; w1 := x; w2 := y; w3 := None; outcome := if k =? 0 then inl v else inr v |}
+  | L [a; c; A x; A y; A k; A v; A z] =>
+    olet a := tbool a in olet c := tbool c in
+    Some {| saw_addr := a; saw_contents := c; w1 := x; w2 := y; w3 := Some z; outcome := if k =? 0 then inl v else inr v |}
   | _ => None
   end.
 
@@ -46,7 +50,7 @@ Definition step_ok (seen : list Z) (mode0 : Z) (pop : list Z) (fail_at : Z) (res
     let saw_old := forallb (fun e => saw_addr e && saw_contents e) lg in
     (* the words handed to the children of this step are new: distinct from each other AND from every word handed out in
        an earlier step of the same Generation value (a failed step must not rewind the randomness) *)
-    let words := flat_map (fun e => [w1 e; w2 e]) lg in
+    let words := flat_map (fun e => [w1 e; w2 e] ++ match w3 e with Some z => [z] | None => [] end) lg in
     let fresh := nodup_b (seen ++ words) in
     let injected := (0 <=? fail_at) && (fail_at <? Z.of_nat n) in
     let ok :=
@@ -124,7 +128,12 @@ Qed.
 
 Definition judge_general (t : tree) : option (list Z) :=
   match t with
-  | L [L [A mode; pop; A fail_at]; L [res; final; lg]] =>
+  | L [L [A mode0; pop; A fail_at0]; L [res; final; lg]] =>
+    (* mode 500 + T: islands - the observed Generation value never fails (the failing call belongs to ANOTHER value that
+       steps at the same time), so its step is judged as a parallel step in T threads without an injected failure *)
+    let island := (500 <=? mode0) && (mode0 <? 600) in
+    let mode := if island then mode0 - 500 else mode0 in
+    let fail_at := if island then -1 else fail_at0 in
     olet pop := tlist tZ pop in
     olet r := step_ok [] mode pop fail_at res final lg in
     let '(ok, saw_old, fresh, _, _) := r in
